@@ -39,6 +39,8 @@ def sort_window_spec(v, failed, w, first, last, out):
         props.append((f"w{i}.in_window_gets_configured_weight", Implies(inside, exact(out[i], w[i]))))
         props.append((f"w{i}.outside_window_or_failed_gets_zero", Implies(outside, exact(out[i], ZERO))))
         props.append((f"w{i}.zero_or_configured", Or(exact(out[i], ZERO), exact(out[i], w[i]))))
+    # never more realizations than the window holds (ties must not widen the selection)
+    props.append(("at_most_window_size_selected", count([Not(exact(out[i], ZERO)) for i in range(n)]) <= last - first + 1))
     return props, P
 
 
@@ -248,6 +250,7 @@ def build_cases(tier):
     add(MappingCase, R=3, K=2, C=1, filters=(so(0, 1), sc(1, 2)), obj_filt=(0, 1), con_filt=(1,))
     add(MappingCase, R=3, K=3, C=1, filters=(so(0, 0, (1,)), so(1, 2, (0, 2))), obj_filt=(1, -1, 0), con_filt=(0,))
     add(MappingCase, R=3, K=2, C=0, filters=(so(0, 0), so(1, 2)), obj_filt=(1, -1), con_filt=())   # a configured filter nothing refers to comes first
+    add(MappingCase, R=3, K=1, C=2, filters=(sc(0, 1, 0), sc(0, 1, 1)), obj_filt=(-1,), con_filt=(0, 1))   # two constraint filters see the same arrays
     add(MappingCase, R=3, K=2, C=1, filters=(so(0, 1), so(2, 2), sc(0, 0)), obj_filt=(2, 2), con_filt=(0,))
     if tier == "thorough":
         add(MappingCase, R=3, K=2, C=2, filters=(so(0, 1), sc(0, 1, 1), so(2, 2, (1,))), obj_filt=(2, 0), con_filt=(-1, 1))
